@@ -1,0 +1,69 @@
+//go:build verif
+
+// Contracts for contract-based deductive verification (see /verif/DESIGN.md).
+// Comment-only file: it contributes no code to any build.
+
+package websocket
+
+// ---------------------------------------------------------------- C13: one message = one frame
+// A message is encoded directly into the exclusive frame writer obtained for it (so the order in
+// which compression contexts advance is the order of the frames on the wire), that writer is
+// closed before Write returns, and the byte counter grows by what the encoder reports.
+//@ func (*Transport).Write
+//@   props C13
+//@   requires t.txBytesCounter != nil
+//@   ghostvar w io.WriteCloser = nil
+//@   ghostvar have bool = false
+//@   ghostvar n int = 0
+//@   ghostvar closed bool = false
+//@   after call Conn).Writer: w = res0
+//@   after call Conn).Writer: have = (res1 == nil)
+//@   assert call encodeTo: have && arg0 == w && arg1 == bs
+//@   after call encodeTo: n = res0
+//@   assert call AddUint64: arg0 == t.txBytesCounter && imp(n >= 0, arg1 == n)
+//@   after call Close: closed = true
+//@   ensures imp(have, closed)
+
+// Read decodes exactly the frame reader it obtained and counts what the decoder reports.
+//@ func (*Transport).Read
+//@   props C13
+//@   requires t.rxBytesCounter != nil
+//@   ghostvar r io.Reader = nil
+//@   ghostvar n int = 0
+//@   ghostvar m []byte = nil
+//@   after call Conn).Reader: r = res1
+//@   assert call decodeFrom: arg0 == r
+//@   after call decodeFrom: n = res0
+//@   after call decodeFrom: m = res1
+//@   assert call AddUint64: arg0 == t.rxBytesCounter && imp(n >= 0, arg1 == n)
+//@   ensures imp(result1 == nil, result0 == m)
+
+// Context takeover: both directions use the sliding window as the dictionary of the next
+// message and trim it to the negotiated window size only AFTER the message was appended
+// (writer and reader therefore keep the same last WindowSize bytes), all under the window lock.
+//@ func (*Transport).encodeToWithContextTakeover
+//@   props C13
+//@   ghostvar dict []byte = nil
+//@   ghostvar appended bool = false
+//@   ghostvar blen int = 0
+//@   ghostvar ws int = 0
+//@   after call Buffer).Bytes: dict = res0
+//@   assert call NewWriterDict: held(t.writeWindowBufMu) && arg1 == t.compressConfig.Level && arg2 == dict
+//@   after call Writer).Write: appended = true
+//@   after call Buffer).Len: blen = res0
+//@   after call WindowSize: ws = res0
+//@   assert call Buffer).Next: held(t.writeWindowBufMu) && appended && arg0 == t.writeWindowBuf && arg1 == blen - ws
+
+//@ func (*Transport).decodeFromWithContextTakeover
+//@   props C13
+//@   ghostvar dict []byte = nil
+//@   ghostvar appended bool = false
+//@   ghostvar blen int = 0
+//@   ghostvar ws int = 0
+//@   after call Buffer).Bytes: dict = res0
+//@   assert call NewReaderDict: held(t.readWindowBufMu) && arg1 == dict
+//@   assert call TeeReader: typeis(arg1, *bytes.Buffer) && unbox(arg1, *bytes.Buffer) == t.readWindowBuf
+//@   after call Transport).decode: appended = (res2 == nil)
+//@   after call Buffer).Len: blen = res0
+//@   after call WindowSize: ws = res0
+//@   assert call Buffer).Next: held(t.readWindowBufMu) && appended && arg0 == t.readWindowBuf && arg1 == blen - ws
